@@ -6,46 +6,39 @@ class C15(Spec):
     drv = "drv_c15"
     harness = "h_c15"
     required_theorems = (
-        "C15.err_no_change", "C15.nonneg_main_partial", "C15.nonneg_partial", "C15.supply_delta_partial",
-        "C15.deficit_delta_partial", "C15.alias_safe", "C15.alias_rejected", "C15.old_guard_alias_mints", "C15.no_overflow_partial",
-        "C15.case_insensitive", "C15.case_insensitive_write", "C15.normEth_idempotent", "C15.normEth_case_variants",
-        "C15.nonneg_full_false", "C15.no_overflow_full_false", "C15.supply_full_false",
+        "C15.err_no_change", "C15.nonneg", "C15.no_overflow", "C15.no_overflow_step", "C15.supply_delta",
+        "C15.supply_delta_step", "C15.deficit_delta", "C15.alias_safe", "C15.alias_rejected",
+        "C15.negative_grant_rejected", "C15.case_insensitive", "C15.case_insensitive_write",
+        "C15.normEth_idempotent", "C15.normEth_case_variants",
+        "C15.old_guard_alias_mints", "C15.old_genesis_accepts_negative_grant", "C15.old_execDeposit_wraps",
     )
-    partial = (
-        "C15.nonneg_main_partial: hypothesis 'no negative genesis grant' (GenesisInit has no CheckAmount)",
-        "C15.nonneg_partial: + at most 92 operations (the exec sub-ledger adds without safeAdd)",
-        "C15.no_overflow_partial: hypothesis Backed (every exec balance covers its sub-accounts)",
-        "C15.supply_delta_partial: hypothesis 'no negative genesis grant'",
-        "C15.deficit_delta_partial: hypotheses sub-account fields <= 2^63-1-1e17 (no wrap), no negative grant; any spellings",
-        "C15.alias_safe: any spellings of from/to (no alias hypothesis since repo fix 3bc3d2b); remaining hypothesis: no wrap (cap)",
-    )
-    refuted = (
-        "C15.nonneg_full_false: genesis A -1 => balance -1",
-        "C15.no_overflow_full_false: 93 x ExecDeposit(1e17-1) wraps int64",
-        "C15.supply_full_false: genesis -2^63 then transfer 1 wraps the payer to +2^63-1",
-    )
+    partial = ()
+    refuted = ()
     level_text = (
         "Lean theorems about a model of account.DB with explicit int64 wrap-around, for every normalisation function, "
-        "every state and every operation list: an error changes nothing; the main ledger stays in [0, MaxTokenBalance] "
-        "and the supply moves exactly by minted/burned/issued/granted amounts (given non-negative genesis grants); the exec "
-        "equation moves by an explicit per-operation amount (0 for the preserving operations, for arbitrary spellings) given no "
-        "wrap; ExecTransfer/ExecTransferFrozen between two spellings of one account are rejected (the pre-fix guard is kept as a "
-        "regression theorem: it minted balance); no overflow while every exec balance covers its sub-accounts; equal storage keys read one record. Three full "
-        "statements are refuted on concrete witnesses that replay on the real code (negative grant: balance and supply; "
-        "sub-ledger int64 wrap). The model is tied to account/*.go by a "
-        "differential run (error enum + every involved record after each of ~1e5 generated operations over base58/hex "
-        "spellings and edge amounts) and the property is evaluated on the implementation against an unbounded-integer ledger."
+        "every configuration and every operation list, with no side hypotheses: an error changes nothing; every balance "
+        "and frozen amount of the main ledger and of every exec sub-ledger stays in [0, MaxTokenBalance] (never negative, "
+        "no int64 wrap); the supply after a run equals the sum of the minted/burned/issued/granted amounts; in every "
+        "reachable state a successful operation moves the exec equation balance(exec) - sum(sub-accounts) by an explicit "
+        "per-operation amount (0 for the preserving operations) for arbitrary address spellings; two spellings of one "
+        "account are rejected by the exec-internal transfers; equal storage keys read and write one record; the concrete "
+        "hex lower-casing satisfies the normalisation laws. The behaviour before the repo fixes 3bc3d2b / b0959e4 (alias "
+        "mints balance, negative genesis grant, sub-ledger int64 wrap) is kept as regression theorems about separate "
+        "...Old definitions. The model is tied to account/*.go by a differential run (error enum + every involved record "
+        "after each of ~1e5 generated operations over base58/hex spellings and edge amounts, plus corpus witnesses of the "
+        "repaired defects) and the property is evaluated on the implementation against an unbounded-integer ledger."
     )
     level_note = (
         "address.FormatAddrKey is a parameter (norm) of the theorems; the driver uses the concrete lower-casing of hex "
-        "addresses and the tie checks it. Go panics (TransferWithdraw / GenesisInitExec after a partial write) are an explicit "
-        "model outcome compared with the code; ledger equations are not asserted across a panic (the executor rolls back)."
+        "addresses and the tie checks it. Go panics (TransferToExec / TransferWithdraw / GenesisInitExec after a partial "
+        "write) are an explicit model outcome compared with the code; the invariants are proved across a panic, the "
+        "ledger equations of the harness are not asserted across it (the executor rolls back)."
     )
     assumptions = (
         "the KV store behaves as a map (GoMemDB in the harness)",
         "protobuf encode/decode of types.Account round-trips addr/balance/frozen (observed through LoadAccount in the tie)",
         "address.FormatAddrKey lower-cases exactly the strings go-ethereum IsHexAddress accepts (model normEth, proved idempotent and case-insensitive on hex addresses; agreement with the code is checked by the differential run, ASCII spellings only)",
-        "a Go panic inside TransferWithdraw/GenesisInitExec aborts the caller's transaction; no ledger equation is asserted across it",
+        "a Go panic inside TransferToExec/TransferWithdraw/GenesisInitExec aborts the caller's transaction; no ledger equation is asserted across it by the harness",
     )
 
 
